@@ -27,6 +27,7 @@ structure BlockObs where
   truncated : Bool
   enc : DynTab
   dec : DynTab
+  pending : Bool        -- the encoder still owes the decoder a size update at this point
   deriving Repr, DecidableEq
 
 structure Hist where
@@ -53,8 +54,40 @@ def Hist.step (T : Tables) (h : Hist) : Op → Hist
       let (s2, tr) := match e with | none => s1.close | some _ => (s1, false)
       { h with dec := s2, cur := [],
                obs := h.obs ++ [{ bytes := h.cur, fields := s1.out, err := e, truncated := tr,
-                                  enc := h.enc.tab, dec := s2.dec.tab }],
+                                  enc := h.enc.tab, dec := s2.dec.tab, pending := h.enc.pending }],
                dead := e.isSome || tr }
+
+/-- the field lists the property expects the decoder to emit, block by block (`cur` = fields written since
+    the last `endBlock`) -/
+def expected : List Op → List HF → List (List HF)
+  | [], _ => []
+  | .field f :: r, cur => expected r (cur ++ [f])
+  | .endBlock :: r, cur => cur :: expected r []
+  | _ :: r, cur => expected r cur
+
+/-- what C30 demands of the record of one header block (`a` = the decoder's allowed maximum, `exp` = the
+    fields written into the block) -/
+structure GoodObs (a : Nat) (o : BlockObs) (exp : List HF) : Prop where
+  noerr : o.err = none
+  notrunc : o.truncated = false
+  fields : o.fields = exp                       -- names, values and never-index flags, in order
+  decle : o.dec.size ≤ o.dec.maxSize
+  encle : o.enc.size ≤ o.enc.maxSize
+  maxa : o.dec.maxSize ≤ a
+  eq : o.pending = false → o.enc = o.dec        -- whole tables (entries, size, maxSize)
+
+/-- block records and expected field lists correspond one to one, and every record is good -/
+def AllGood (a : Nat) : List BlockObs → List (List HF) → Prop
+  | [], [] => True
+  | o :: os, e :: es => GoodObs a o e ∧ AllGood a os es
+  | _, _ => False
+
+/-- the histories C30 quantifies over: header octets are bytes, strings shorter than 2^31, and the encoder's
+    limit is never set above what the decoder allows (so every announced size is allowed) -/
+def OpValid (a : Nat) : Op → Prop
+  | .field f => ((∀ c ∈ f.name, c < 256) ∧ f.name.length < 2 ^ 31) ∧ ((∀ c ∈ f.value, c < 256) ∧ f.value.length < 2 ^ 31)
+  | .setLimit v => v ≤ a
+  | _ => True
 
 def runHist (T : Tables) (allowed : Nat) (ops : List Op) : Hist := ops.foldl (Hist.step T) (Hist.init allowed)
 
